@@ -5,6 +5,7 @@ from hypothesis import strategies as st
 from vlib.runner import Clause
 from vlib import gen, objs
 from vlib import refs_state as rs
+from vlib import digest as _dg
 from vlib.tol import close, describe
 
 import menpo.shape
@@ -18,14 +19,21 @@ from menpo.image import MaskedImage
 PROPERTY = "C05"
 RULE = (
     "Every concrete public Vectorizable class found by walking Vectorizable.__subclasses__() (8 shape classes with "
-    "0-3 landmark groups; Image / MaskedImage / BooleanImage in 2 and 3 dimensions, 1-4 channels, float64 / float32 / uint8 "
-    "/ bool, masks all-true / random / blob / single pixel; the 12 homogeneous-family transform classes in 2-D and "
-    "3-D) is built from a Hypothesis-drawn plain-data case together with a drawn parameter vector w of the right "
-    "length (quantised floats; canonical unit quaternions for 3-D rotations; seeded pixel content for images) and a "
-    "seed for the wrong-length vectors {0, n-1, n+1, 2n}. Non-trivial: the object has a landmark group, structure "
-    "(trilist / adjacency / labels / colours / texture), a non-all-true mask or is a transform, AND w differs from "
-    "the object's own vector; for the (class, dimension) pairs whose n_parameters is documented to raise "
-    "NotImplementedError the case is trivial. Distinct = distinct canonical-JSON digest of the case."
+    "0-3 landmark groups and float64 or int64 points; Image / MaskedImage / BooleanImage in 2, 3 and 4 dimensions, 1-4 "
+    "channels, float64 / float32 / uint8 / uint16 / int32 / int64 / bool, masks all-true / random / blob / single pixel / "
+    "all-false; the 12 homogeneous-family transform classes in 2-D and 3-D, the alignment ones fitted between "
+    "PointClouds or between shapes of two drawn classes - same, unrelated, target a proper subclass of the source and "
+    "the reverse) is built from a Hypothesis-drawn plain-data case together with a drawn parameter vector w of the "
+    "right length (quantised floats or integers; canonical unit quaternions for 3-D rotations; seeded pixel content "
+    "of the pixel dtype or another dtype for images) and a seed for the wrong-length vectors: {0, n-1, n+1, 2n} plus "
+    "the lengths that share a divisor with n (images: one number per pixel, per masked pixel, a channel or a pixel "
+    "per channel more / fewer, n_channels; shapes: a point more / fewer, one point, one number per point). Images "
+    "are also rebuilt with the documented options (n_channels=k for k in 1..5, copy=False with a contiguous or a "
+    "strided vector) and through the in-place route on a copy (from_vector_inplace, set_masked_pixels). Non-trivial: "
+    "the object has a landmark group, structure (trilist / adjacency / labels / colours / texture), a non-all-true "
+    "mask or is a transform, AND w differs from the object's own vector; for the (class, dimension) pairs whose "
+    "n_parameters is documented to raise NotImplementedError the case is trivial. Distinct = distinct canonical-JSON "
+    "digest of the case."
 )
 ASSUMPTIONS = [
     "_landmarks None and an empty LandmarkManager are the same observable state (the landmarks property creates the "
@@ -41,7 +49,16 @@ ASSUMPTIONS = [
     "round-trip tolerance for transforms: 1e-10 absolute scaled by magnitude (delta-from-identity parametrisations "
     "add and subtract 1), 1e-8 for quaternions; shapes and images are compared exactly",
     "well-formedness after a wrong-length from_vector is the fixed query list of DESIGN C05.7 plus the per-vertex "
-    "attribute counts (colours, tcoords) that the class itself indexes by vertex",
+    "attribute counts (colours, tcoords) that the class itself indexes by vertex; for shapes and images a vector that "
+    "was not refused must in addition be the result's as_vector(), number for number, and a masked image must keep "
+    "its mask and be zero outside it",
+    "one exception to the previous rule is counted, not failed: a partially masked image given exactly n_channels "
+    "numbers broadcasts one value per channel over its mask (numpy assignment semantics); the result is checked to be "
+    "that constant fill with zeros elsewhere (BROADCAST_IS_A_DEFECT switches it to a failure)",
+    "from_vector(v, copy=False) is documented to share the caller's vector: only writes reaching the RECEIVER are "
+    "failures there; the in-place route on a partially masked image is checked with a vector of the pixel dtype "
+    "(assignment into existing pixels casts) and must keep the old pixels outside the mask ('update the masked "
+    "pixels only'), so it is not compared with from_vector there",
 ]
 
 # ------------------------------------------------------------------------------------------ discovery
@@ -102,17 +119,23 @@ def _sig_cls(o):
     return type(o).__name__
 
 
+INT_RANGES = {"uint8": (0, 256), "uint16": (0, 65536), "int32": (-(2**30), 2**30), "int64": (-(2**40), 2**40)}
+
+
 def seeded_vector(seed, n, dtype="float64"):
-    r = np.random.RandomState(seed)
+    r = np.random.RandomState(seed % (2**32))
     if dtype == "bool":
         return r.rand(n) > 0.5
-    if dtype == "uint8":
-        return r.randint(0, 256, size=n).astype(np.uint8)
+    if dtype in INT_RANGES:
+        lo, hi = INT_RANGES[dtype]
+        return r.randint(lo, hi, size=n, dtype=np.int64).astype(dtype)
     return (np.round((r.rand(n) * 8 - 4) * 1024) / 1024).astype(dtype)
 
 
-def wrong_lengths(n):
-    return sorted(L for L in {0, n - 1, n + 1, 2 * n} if L >= 0 and L != n)
+def wrong_lengths(n, extra=()):
+    """{0, n-1, n+1, 2n} plus the 'meaningful' wrong lengths of the class (one number per pixel instead of per masked
+    pixel, one per point, a multiple of the channel count / dimension away from n, ...)."""
+    return sorted(L for L in ({0, n - 1, n + 1, 2 * n} | set(int(x) for x in extra)) if L >= 0 and L != n)
 
 
 # ------------------------------------------------------------------------------------------ shared clauses
@@ -151,21 +174,24 @@ def write_probe(o, result, ctx, d0, skip=()):
     return len(bufs)
 
 
-def check_wrong_lengths(o, ctx, d0, seed, dtype, well_formed, lengths=None):
-    """Clause 7."""
+def check_wrong_lengths(o, ctx, d0, seed, dtype, well_formed, lengths=None, extra=(), accepted=None):
+    """Clause 7.  `accepted(r, w, L)` (optional) is called for a vector that was NOT rejected, after the result passed
+    the well-formedness queries: what was accepted must be what the result exposes."""
     cls = _sig_cls(o)
     try:
         n = o.n_parameters
-        lengths = wrong_lengths(n) if lengths is None else lengths
+        lengths = wrong_lengths(n, extra) if lengths is None else lengths
     except NotImplementedError:
         lengths = [0, 1, 4, 6, 7, 12] if lengths is None else lengths
+    rejected = []
     for L in lengths:
         w = seeded_vector(seed + L, L, dtype)
+        w_keep = w.copy()
         try:
             r = o.from_vector(w)
         except ALLOWED_REJECTIONS as e:
             ctx.event("wrong length -> %s" % type(e).__name__)
-            check_receiver_unchanged(o, ctx, d0, "after_rejected_wrong_length")
+            rejected.append(L)
             continue
         ctx.event("wrong length -> returned")
         check_receiver_unchanged(o, ctx, d0, "after_accepted_wrong_length")
@@ -174,6 +200,19 @@ def check_wrong_lengths(o, ctx, d0, seed, dtype, well_formed, lengths=None):
         probs = well_formed(r)
         ctx.expect(not probs, "wrong_length.malformed:" + cls,
                    lambda: "from_vector(vector of length %d, n_parameters=%s) returned a %s with: %s" % (L, _np_or_ni(o), cls, "; ".join(probs)))
+        if accepted is not None and not probs:
+            accepted(r, w_keep, L)
+    if rejected:  # one look at the receiver after all the refused vectors (a refusal must leave no trace either)
+        check_receiver_unchanged(o, ctx, d0, "after_rejected_wrong_lengths %r" % (rejected,))
+
+
+def accepted_vector_is_exposed(ctx, cls, r, w, L, n_own):
+    """A vector that from_vector did not refuse IS the new object's vector: as_vector() gives it back, number for
+    number (an accepted vector some of whose numbers silently vanish, or that is padded, was not 'accepted')."""
+    av = r.as_vector()
+    ctx.expect(av.shape == (L,) and np.array_equal(av, w), "wrong_length.accepted_vector_not_exposed:" + cls,
+               lambda: "from_vector took a vector of %d numbers (n_parameters of the receiver: %d) and the result's as_vector() has shape %r%s"
+               % (L, n_own, av.shape, "" if av.shape != (L,) else " with other values: " + describe(av, w)))
 
 
 def _np_or_ni(o):
@@ -193,13 +232,56 @@ def _query(probs, name, f):
 
 
 # ------------------------------------------------------------------------------------------ shapes
+def build_shape(sc, pts=None):
+    """objs.build_shape, optionally with other coordinates and / or integer-typed points (``ptype == "int"``: the
+    coordinates are rounded and handed to the constructor as an int64 array - a legal way to build every shape)."""
+    if pts is None and sc.get("ptype", "float") == "float":
+        return objs.build_shape(sc)
+    base = dict(sc)
+    if pts is not None:
+        base["pts"] = [list(map(float, row)) for row in pts]
+    if sc.get("ptype", "float") == "float":
+        return objs.build_shape(base)
+    # integer points: the same constructors as objs.build_shape, fed an int64 array
+    from collections import OrderedDict
+    from menpo.shape import (PointCloud, TriMesh, ColouredTriMesh, TexturedTriMesh, PointUndirectedGraph, PointDirectedGraph,
+                             PointTree, LabelledPointUndirectedGraph)
+
+    kind = base["kind"]
+    ip = np.round(np.array(base["pts"], dtype=float)).astype(np.int64)
+    n = ip.shape[0]
+    if kind == "PointCloud":
+        o = PointCloud(ip)
+    elif kind == "TriMesh":
+        o = TriMesh(ip, trilist=np.array(base["tri"], dtype=int))
+    elif kind == "ColouredTriMesh":
+        o = ColouredTriMesh(ip, trilist=np.array(base["tri"], dtype=int), colours=np.array(base["colours"], dtype=float))
+    elif kind == "TexturedTriMesh":
+        o = TexturedTriMesh(ip, np.array(base["tcoords"], dtype=float), objs._texture(base["tex"]), trilist=np.array(base["tri"], dtype=int))
+    elif kind == "PointUndirectedGraph":
+        o = PointUndirectedGraph(ip, objs.edges_to_adjacency(base["edges"], n, False))
+    elif kind == "PointDirectedGraph":
+        o = PointDirectedGraph(ip, objs.edges_to_adjacency(base["edges"], n, True))
+    elif kind == "PointTree":
+        o = PointTree(ip, objs.edges_to_adjacency(base["edges"], n, True), base["root"])
+    elif kind == "LabelledPointUndirectedGraph":
+        l2m = OrderedDict((nm, np.array(mask, dtype=bool)) for nm, mask in base["labels"])
+        o = LabelledPointUndirectedGraph(ip, objs.edges_to_adjacency(base["edges"], n, False), l2m)
+    else:
+        raise ValueError(kind)
+    for nm, sub in base.get("lms", []):
+        o.landmarks[nm] = objs.build_shape(sub)
+    return o
+
+
 @st.composite
 def s_shape(draw):
     sc = draw(objs.shape_case())
     n, d = len(sc["pts"]), sc["d"]
     mode = draw(st.sampled_from(["new", "new", "new", "own"]))
     w = draw(st.lists(gen.q(-20, 20), min_size=n * d, max_size=n * d)) if mode == "new" else None
-    return {"obj": sc, "w": w, "seed": draw(st.integers(0, 2**16))}
+    sc["ptype"] = draw(st.sampled_from(["float", "float", "float", "int"]))
+    return {"obj": sc, "w": w, "wtype": draw(st.sampled_from(["float", "float", "float", "int"])), "seed": draw(st.integers(0, 2**16))}
 
 
 def well_formed_shape(r):
@@ -242,22 +324,31 @@ def well_formed_shape(r):
 
 def c_shape(case, ctx):
     sc = case["obj"]
-    o = objs.build_shape(sc)
+    o = build_shape(sc)
     cls = sc["kind"]
+    d = sc["d"]
     ctx.event("class=%s" % cls)
     ctx.event("landmark groups=%d" % len(sc.get("lms", [])))
+    ctx.event("points dtype=%s" % o.points.dtype)
     d0 = rs.ndigest(o)
     v = check_as_vector(o, ctx, d0)
     if v is None:
         return
+    ctx.expect(v.dtype == o.points.dtype, "as_vector.dtype:" + cls, lambda: "points %s, vector %s" % (o.points.dtype, v.dtype))
     # clause 2: whole-state round trip
     o2 = o.from_vector(v)
     ctx.expect(type(o2) is type(o), "from_vector.result_class:" + cls, lambda: type(o2).__name__)
-    expect_state(ctx, "roundtrip.state:" + cls, rs.nstate_diff(objs.build_shape(sc), o2))
+    expect_state(ctx, "roundtrip.state:" + cls, rs.nstate_diff(build_shape(sc), o2))
     check_receiver_unchanged(o, ctx, d0, "own_vector")
-    # clause 3: from_vector(w).as_vector() == w
+    # clause 3: from_vector(w).as_vector() == w   (w float, or an integer-typed vector)
     own = case["w"] is None
-    w = v.copy() if own else np.array(case["w"], dtype=float)
+    if own:
+        w = v.copy()
+    elif case.get("wtype") == "int":
+        w = np.round(np.array(case["w"], dtype=float)).astype(np.int64)
+    else:
+        w = np.array(case["w"], dtype=float)
+    ctx.event("vector dtype=%s" % w.dtype)
     w_keep = w.copy()
     o3 = o.from_vector(w)
     ctx.expect(type(o3) is type(o), "from_vector.result_class:" + cls, lambda: type(o3).__name__)
@@ -265,27 +356,74 @@ def c_shape(case, ctx):
     ctx.expect(v3.shape == w_keep.shape and np.array_equal(v3, w_keep), "from_vector_then_as_vector:" + cls, lambda: describe(v3, w_keep))
     ctx.expect(np.array_equal(w, w_keep), "from_vector.mutated_argument:" + cls, "")
     # the new coordinates, everything else carried over from the receiver
-    want = objs.build_shape(sc)
-    want.points = w_keep.reshape(-1, sc["d"])
+    want = build_shape(sc)
+    want.points = w_keep.reshape(-1, d)
     expect_state(ctx, "from_vector.state:" + cls, rs.nstate_diff(want, o3))
     check_receiver_unchanged(o, ctx, d0, "new_vector")
-    # clause 4: write probe through both results
+    # in-place route (the deprecated public from_vector_inplace on a copy): the same object as from_vector gives
+    b = o.copy()
+    ret = b.from_vector_inplace(w)
+    ctx.expect(ret is None or ret is b, "inplace.returned_something_else:" + cls, lambda: type(ret).__name__)
+    vb = b.as_vector()
+    ctx.expect(vb.shape == w_keep.shape and np.array_equal(vb, w_keep), "inplace.as_vector:" + cls, lambda: describe(vb, w_keep))
+    pd = _dg.public_diff(want, b)
+    ctx.expect(pd is None, "inplace.differs_from_from_vector:" + cls, lambda: pd)
+    ctx.expect(np.array_equal(w, w_keep), "inplace.mutated_argument:" + cls, "")
+    check_receiver_unchanged(o, ctx, d0, "inplace_on_copy")
+    # clause 4: write probe through the results
     write_probe(o, o3, ctx, d0)
     write_probe(o, o2, ctx, d0)
-    # clause 7
-    check_wrong_lengths(o, ctx, d0, case["seed"], "float64", well_formed_shape)
+    write_probe(o, b, ctx, d0)
+    # clause 7: the usual four plus the lengths that share a divisor with n (a point more / fewer, one point, one
+    # number per point)
+    n = v.shape[0]
+    check_wrong_lengths(o, ctx, d0, case["seed"], "float64", well_formed_shape, extra=(n - d, n + d, d, n // d, n + 2 * d),
+                        accepted=lambda r, ww, L: accepted_vector_is_exposed(ctx, cls, r, ww, L, n))
     structured = cls != "PointCloud" or bool(sc.get("lms"))
     ctx.nontrivial(structured and not own and not np.array_equal(w_keep, v))
 
 
 # ------------------------------------------------------------------------------------------ images
+EXTRA_INT_DTYPES = ("int32", "uint16", "int64")
+W_DTYPES = ["same", "same", "same", "float64", "float64", "float32", "int64"]
+
+
 @st.composite
 def s_image(draw):
-    ndim = draw(st.sampled_from([2, 2, 2, 3]))
-    smax = {2: 9, 3: 5}[ndim]
+    ndim = draw(st.sampled_from([2, 2, 2, 2, 3, 3, 4]))
+    smax = {2: 9, 3: 5, 4: 3}[ndim]
     ic = draw(objs.image_case(ndim=ndim, smin=1, smax=smax, fills=("random",)))
-    return {"obj": ic, "wseed": draw(st.integers(0, 2**16)), "wdtype": draw(st.sampled_from(["same", "same", "float64"])),
-            "seed": draw(st.integers(0, 2**16))}
+    if ic["cls"] != "BooleanImage" and draw(st.integers(0, 3)) == 0:
+        ic["dtype"] = draw(st.sampled_from(EXTRA_INT_DTYPES))  # wider integer pixels than objs.image_case draws
+    if ic["cls"] == "MaskedImage" and draw(st.integers(0, 11)) == 0:
+        ic["mask"] = "none"  # all-false mask: a legal MaskedImage with n_parameters == 0
+    return {"obj": ic, "wseed": draw(st.integers(0, 2**16)), "wdtype": draw(st.sampled_from(W_DTYPES)),
+            "k": draw(st.integers(1, 5)), "strided": draw(st.booleans()), "seed": draw(st.integers(0, 2**16))}
+
+
+def build_image(ic):
+    """objs.build_image plus what it does not draw: int32 / uint16 / int64 pixels (values beyond the 8-bit range) and
+    the all-false mask."""
+    if ic["dtype"] not in EXTRA_INT_DTYPES and ic.get("mask") != "none":
+        return objs.build_image(ic)
+    from menpo.image import Image, MaskedImage
+
+    r = np.random.RandomState(ic["seed"])
+    shape = tuple(ic["shape"])
+    full = (ic["ch"],) + shape
+    if ic["dtype"] in INT_RANGES:
+        lo, hi = INT_RANGES[ic["dtype"]]
+        px = r.randint(lo, hi, size=full, dtype=np.int64).astype(ic["dtype"])
+    else:
+        px = r.rand(*full).astype(ic["dtype"])
+    if ic["cls"] == "MaskedImage":
+        m = np.zeros(shape, dtype=bool) if ic["mask"] == "none" else objs._mask_array(ic["mask"], shape, r)
+        im = MaskedImage(px, mask=m)
+    else:
+        im = Image(px)
+    for nm, spec in ic.get("lms", []):
+        im.landmarks[nm] = objs.build_image_landmark(spec, shape)
+    return im
 
 
 def ref_scan(pixels, mask):
@@ -332,16 +470,23 @@ def well_formed_image(r):
 
 
 def _expected_after_own_roundtrip(ic):
-    e = objs.build_image(ic)
+    e = build_image(ic)
     if ic["cls"] == "MaskedImage" and not e.mask.mask.all():
         e.pixels[..., ~e.mask.mask] = 0
     return e
 
 
+# MaskedImage.from_vector with a partial mask assigns vector.reshape((n_channels, -1)) to the (n_channels, n_true) block
+# of masked pixels, so a vector of exactly n_channels numbers is BROADCAST (one value per channel) instead of refused.
+# Whether that short-hand is wanted is not settled by the property text; it is counted and checked for consistency
+# (constant channels under the mask, zero elsewhere) and reported, not failed.  Set to True to fail it.
+BROADCAST_IS_A_DEFECT = False
+
+
 def c_image(case, ctx):
     ic = case["obj"]
     cls = ic["cls"]
-    o = objs.build_image(ic)
+    o = build_image(ic)
     ctx.event("class=%s" % cls)
     ctx.event("ndim=%d" % len(ic["shape"]))
     ctx.event("dtype=%s" % ic["dtype"])
@@ -355,6 +500,9 @@ def c_image(case, ctx):
     if v is None:
         return
     nch = px0.shape[0]
+    shape = tuple(ic["shape"])
+    n_pixels = int(np.prod(shape))
+    n_true = n_pixels if mask is None else int(mask.sum())
     # clause 5: layout
     want_v = ref_scan(px0, mask)
     ctx.expect(v.dtype == px0.dtype and np.array_equal(v, want_v), "layout.as_vector:" + cls, lambda: describe(v, want_v))
@@ -370,7 +518,8 @@ def c_image(case, ctx):
     expect_state(ctx, "roundtrip.state:" + cls, rs.nstate_diff(_expected_after_own_roundtrip(ic), o2))
     check_receiver_unchanged(o, ctx, d0, "own_vector")
     # clause 3 + 5
-    wdtype = ic["dtype"] if (case["wdtype"] == "same" or cls == "BooleanImage") else "float64"
+    wdtype = ic["dtype"] if (case["wdtype"] == "same" or cls == "BooleanImage") else case["wdtype"]
+    ctx.event("vector dtype %s" % ("= pixel dtype" if wdtype == ic["dtype"] else "differs from pixel dtype"))
     w = seeded_vector(case["wseed"], v.shape[0], wdtype)
     w_keep = w.copy()
     o3 = o.from_vector(w)
@@ -381,7 +530,7 @@ def c_image(case, ctx):
     want_px = ref_fill(w_keep, nch, ic["shape"], mask)
     ctx.expect(o3.pixels.shape == want_px.shape and np.array_equal(o3.pixels, want_px), "layout.from_vector_pixels:" + cls,
                lambda: describe(o3.pixels, want_px))
-    want = objs.build_image(ic)
+    want = build_image(ic)
     want.pixels = want_px
     expect_state(ctx, "from_vector.state:" + cls, rs.nstate_diff(want, o3))
     check_receiver_unchanged(o, ctx, d0, "new_vector")
@@ -389,9 +538,133 @@ def c_image(case, ctx):
     write_probe(o, o3, ctx, d0)
     write_probe(o, o2, ctx, d0)
     ctx.expect(np.array_equal(w, w_keep), "from_vector.result_aliases_argument:" + cls, "writing into the result changed the caller's vector")
-    # clause 7
-    check_wrong_lengths(o, ctx, d0, case["seed"], str(v.dtype), well_formed_image)
+    # the documented options of the image overrides
+    if cls != "BooleanImage":
+        check_n_channels_option(o, ctx, d0, case, ic, mask, n_true, wdtype)
+    if cls != "MaskedImage":
+        check_copy_false(o, ctx, d0, case, ic, w_keep, want_px)
+    check_image_inplace(o, ctx, d0, case, ic, mask, all_true, px0, w_keep)
+    # clause 7: the usual four lengths plus the meaningful wrong ones (one number per PIXEL of a partially masked
+    # image, one per pixel / masked pixel of one channel, a channel more or fewer, a pixel more or fewer per channel)
+    n = v.shape[0]
+    extra = (nch * n_pixels, n_pixels, n_true, n + nch, n - nch, nch, (nch + 1) * n_true, (nch - 1) * n_true, (nch + 1) * n_pixels)
+
+    def accepted(r, ww, L):
+        if cls == "MaskedImage":
+            same_mask = r.mask.mask.shape == mask.shape and np.array_equal(r.mask.mask, mask)
+            ctx.expect(same_mask, "wrong_length.mask_changed:" + cls, lambda: "accepted length %d" % L)
+            if same_mask and r.pixels.shape[1:] == mask.shape:
+                outside = r.pixels[..., ~mask]
+                ctx.expect(not np.any(outside != 0), "wrong_length.nonzero_outside_mask:" + cls,
+                           lambda: "from_vector accepted %d numbers (receiver: %d channels x %d masked of %d pixels) and the result has %d non-zero values OUTSIDE its mask"
+                           % (L, nch, n_true, n_pixels, int(np.count_nonzero(outside))))
+            if not all_true and L == nch and not BROADCAST_IS_A_DEFECT:
+                ctx.event("wrong length -> one value per channel broadcast over the mask (accepted, see report)")
+                av = r.as_vector()
+                ctx.expect(av.shape == (n,) and np.array_equal(av, np.repeat(ww, n_true)), "wrong_length.broadcast_inconsistent:" + cls,
+                           lambda: describe(av, np.repeat(ww, n_true)))
+                return
+        accepted_vector_is_exposed(ctx, cls, r, ww, L, n)
+
+    check_wrong_lengths(o, ctx, d0, case["seed"], str(v.dtype), well_formed_image, extra=extra, accepted=accepted)
     ctx.nontrivial((bool(ic.get("lms")) or not all_true or nch > 1) and not np.array_equal(w_keep, v))
+
+
+def check_n_channels_option(o, ctx, d0, case, ic, mask, n_true, wdtype):
+    """from_vector(v, n_channels=k): 'assume that vector is the same shape as this image, but with a possibly different
+    number of channels' - the k-channel image of the same shape / mask / landmarks whose vector is v."""
+    cls = ic["cls"]
+    k = case["k"]
+    ctx.event("n_channels option: k %s n_channels" % ("=" if k == ic["ch"] else "!="))
+    wk = seeded_vector(case["wseed"] + 7, k * n_true, wdtype)
+    wk_keep = wk.copy()
+    try:
+        r = o.from_vector(wk, n_channels=k)
+    except ALLOWED_REJECTIONS as e:
+        ctx.fail("n_channels_option.refused_right_length:" + cls, "k=%d, n_channels=%d, %d numbers: %s(%s)" % (k, ic["ch"], wk.shape[0], type(e).__name__, str(e)[:200]))
+        check_receiver_unchanged(o, ctx, d0, "n_channels_option_refused")
+        return
+    if not ctx.expect(type(r) is type(o), "n_channels_option.result_class:" + cls, lambda: type(r).__name__):
+        return
+    want_px = ref_fill(wk_keep, k, ic["shape"], mask)
+    ctx.expect(r.pixels.shape == want_px.shape and r.pixels.dtype == want_px.dtype and np.array_equal(r.pixels, want_px),
+               "n_channels_option.pixels:" + cls, lambda: describe(r.pixels, want_px))
+    ctx.expect(r.n_channels == k, "n_channels_option.n_channels:" + cls, lambda: "%r for k=%d" % (r.n_channels, k))
+    av = r.as_vector()
+    ctx.expect(av.shape == wk_keep.shape and np.array_equal(av, wk_keep), "n_channels_option.as_vector:" + cls, lambda: describe(av, wk_keep))
+    ctx.expect(r.n_parameters == wk_keep.shape[0], "n_channels_option.n_parameters:" + cls, lambda: "%r, vector has %d" % (r.n_parameters, wk_keep.shape[0]))
+    want = build_image(ic)
+    want.pixels = want_px
+    pd = _dg.public_diff(want, r)
+    ctx.expect(pd is None, "n_channels_option.state:" + cls, lambda: rs.strip_keys(pd))
+    ctx.expect(np.array_equal(wk, wk_keep), "n_channels_option.mutated_argument:" + cls, "")
+    check_receiver_unchanged(o, ctx, d0, "n_channels_option")
+    write_probe(o, r, ctx, d0)
+    ctx.expect(np.array_equal(wk, wk_keep), "n_channels_option.result_aliases_argument:" + cls, "")
+
+
+def check_copy_false(o, ctx, d0, case, ic, w_keep, want_px):
+    """Image / BooleanImage.from_vector(v, copy=False): the same image; the result may (is documented to) share memory
+    with the caller's vector, never with the receiver.  A strided vector cannot be shared: a copy is made (warning)."""
+    cls = ic["cls"]
+    if case["strided"]:
+        wc = np.repeat(w_keep, 2)[::2]
+        ctx.event("copy=False, strided vector")
+    else:
+        wc = w_keep.copy()
+        ctx.event("copy=False, contiguous vector")
+    r = o.from_vector(wc, copy=False)
+    if not ctx.expect(type(r) is type(o), "copy_false.result_class:" + cls, lambda: type(r).__name__):
+        return
+    av = r.as_vector()
+    ctx.expect(av.shape == w_keep.shape and np.array_equal(av, w_keep), "copy_false.as_vector:" + cls, lambda: describe(av, w_keep))
+    ctx.expect(r.pixels.shape == want_px.shape and np.array_equal(r.pixels, want_px), "copy_false.pixels:" + cls, lambda: describe(r.pixels, want_px))
+    want = build_image(ic)
+    want.pixels = want_px
+    pd = _dg.public_diff(want, r)
+    ctx.expect(pd is None, "copy_false.state:" + cls, lambda: rs.strip_keys(pd))
+    ctx.expect(np.array_equal(wc, w_keep), "copy_false.mutated_argument:" + cls, "")
+    ctx.event("copy=False result %s the vector" % ("shares memory with" if np.shares_memory(r.pixels, wc) else "does not share memory with"))
+    check_receiver_unchanged(o, ctx, d0, "copy_false")
+    write_probe(o, r, ctx, d0)  # may reach the caller's vector (documented), must not reach the receiver
+
+
+def check_image_inplace(o, ctx, d0, case, ic, mask, all_true, px0, w_keep):
+    """The in-place route (deprecated public from_vector_inplace / set_masked_pixels) on a copy: the vector is
+    exposed again, the pixels under the mask are the vector in channel-major raster order; a partially masked image
+    keeps its old pixels outside the mask ('update the masked pixels only')."""
+    cls = ic["cls"]
+    nch = px0.shape[0]
+    wi = w_keep.copy()
+    if not all_true and wi.dtype != px0.dtype:
+        # assignment into the existing pixel array casts; only a vector of the pixel dtype is stored unchanged
+        wi = seeded_vector(case["wseed"], wi.shape[0], ic["dtype"])
+    wi_keep = wi.copy()
+    b = o.copy()
+    b.from_vector_inplace(wi)
+    vb = b.as_vector()
+    ctx.expect(vb.shape == wi_keep.shape and np.array_equal(vb, wi_keep), "inplace.as_vector:" + cls, lambda: describe(vb, wi_keep))
+    filled = ref_fill(wi_keep, nch, ic["shape"], mask)
+    if all_true:
+        want_px = filled
+    else:
+        want_px = px0.copy()
+        want_px[..., mask] = filled[..., mask]
+    ctx.expect(b.pixels.shape == want_px.shape and b.pixels.dtype == want_px.dtype and np.array_equal(b.pixels, want_px),
+               "inplace.pixels:" + cls + ("" if all_true else ".partial_mask"), lambda: describe(b.pixels, want_px))
+    want = build_image(ic)
+    want.pixels = want_px
+    pd = _dg.public_diff(want, b)
+    ctx.expect(pd is None, "inplace.state:" + cls, lambda: rs.strip_keys(pd))
+    if cls == "MaskedImage":
+        b2 = o.copy()
+        b2.set_masked_pixels(wi.reshape(nch, -1))
+        pd2 = _dg.public_diff(b, b2)
+        ctx.expect(pd2 is None, "inplace.set_masked_pixels_differs:" + cls, lambda: rs.strip_keys(pd2))
+    ctx.expect(np.array_equal(wi, wi_keep), "inplace.mutated_argument:" + cls, "")
+    check_receiver_unchanged(o, ctx, d0, "inplace_on_copy")
+    write_probe(o, b, ctx, d0)
+    ctx.expect(np.array_equal(wi, wi_keep), "inplace.aliases_argument:" + cls, "writing into the updated image changed the caller's vector")
 
 
 # ------------------------------------------------------------------------------------------ transforms
@@ -404,12 +677,40 @@ def n_params_documented(kind, d):
             "UniformScale": 1, "NonUniformScale": d}[base]
 
 
+PROPER_SUBCLASSES = {
+    "PointCloud": [k for k in objs.SHAPE_KINDS if k != "PointCloud"],
+    "TriMesh": ["ColouredTriMesh", "TexturedTriMesh"],
+    "PointUndirectedGraph": ["LabelledPointUndirectedGraph"],
+    "PointDirectedGraph": ["PointTree"],
+}
+for _b, _subs in PROPER_SUBCLASSES.items():
+    for _k in _subs:
+        if not (issubclass(getattr(menpo.shape, _k), getattr(menpo.shape, _b)) and _k != _b):
+            raise RuntimeError("C05: %s is no longer a proper subclass of %s - update PROPER_SUBCLASSES" % (_k, _b))
+
+
 @st.composite
 def s_transform(draw):
     tc = draw(objs.homog_case())
     kind, d = tc["kind"], tc["d"]
     if kind == "Similarity":
         tc["rot"]["reflect"] = False
+    pairing = draw(st.sampled_from(["plain", "any", "any", "target richer", "source richer"])) if kind in objs.ALIGN_KINDS else "plain"
+    if pairing != "plain":
+        # an alignment may be fitted between shapes of ANY two classes (a bare cloud driven onto a mesh, a tree onto a
+        # graph, ...): draw the classes and their structure for source and target; 'richer' = a proper subclass
+        n = len(tc["src"])
+        if pairing == "any":
+            kinds = [draw(st.sampled_from(objs.SHAPE_KINDS)), draw(st.sampled_from(objs.SHAPE_KINDS))]
+        else:
+            base = draw(st.sampled_from(["PointCloud", "PointCloud", "TriMesh", "PointUndirectedGraph", "PointDirectedGraph"]))
+            kinds = [base, draw(st.sampled_from(PROPER_SUBCLASSES[base]))]
+            if pairing == "source richer":
+                kinds.reverse()
+        for key, k in zip(("src_shape", "tgt_shape"), kinds):
+            sc = draw(objs.shape_case(kinds=[k], d=d, with_landmarks=False, n_min=n, n_max=n))
+            sc.pop("pts")
+            tc[key] = sc
     c = {"obj": tc, "seed": draw(st.integers(0, 2**16))}
     if (kind, d) in NOT_VECTORIZABLE:
         c["w"] = draw(st.lists(gen.q(-4, 4), min_size=1, max_size=8))
@@ -419,6 +720,32 @@ def s_transform(draw):
         n = n_params_documented(kind, d)
         c["w"] = draw(st.lists(gen.q(-4, 4), min_size=n, max_size=n))
     return c
+
+
+def build_homog(tc):
+    """objs.build_homog; alignments whose case names shape classes for source / target are fitted between those."""
+    if "src_shape" not in tc:
+        return objs.build_homog(tc)
+    import menpo.transform as mt
+
+    src = objs.build_shape(dict(tc["src_shape"], pts=tc["src"]))
+    tgt = objs.build_shape(dict(tc["tgt_shape"], pts=tc["tgt"]))
+    kind = tc["kind"]
+    if kind == "AlignmentSimilarity":
+        return mt.AlignmentSimilarity(src, tgt, rotation=tc["rotation"], allow_mirror=tc["allow_mirror"])
+    if kind == "AlignmentRotation":
+        return mt.AlignmentRotation(src, tgt, allow_mirror=tc["allow_mirror"])
+    return getattr(mt, kind)(src, tgt)
+
+
+def check_alignment_receiver(o, ctx, kind, src0, tgt0, classes, tag):
+    """The alignment from_vector was called on still has the source and the target it was given (public reads)."""
+    ctx.expect(type(o.source).__name__ == classes[0] and np.array_equal(o.source.points, src0), "alignment.receiver_source_changed:" + kind, tag)
+    ctx.expect(type(o.target).__name__ == classes[1], "alignment.receiver_target_class_changed:" + kind,
+               lambda: "%s: %s, was %s" % (tag, type(o.target).__name__, classes[1]))
+    got = o.target.points
+    ctx.expect(got.shape == tgt0.shape and np.array_equal(got, tgt0), "alignment.receiver_target_moved:" + kind,
+               lambda: "%s: the target of the transform from_vector was called on moved\n%s" % (tag, describe(got, tgt0)))
 
 
 def well_formed_transform(r):
@@ -461,11 +788,18 @@ def well_formed_transform(r):
 def c_transform(case, ctx):
     tc = case["obj"]
     kind, d = tc["kind"], tc["d"]
-    o = objs.build_homog(tc)
+    o = build_homog(tc)
     is_align = kind in objs.ALIGN_KINDS
     ctx.event("class=%s d=%d" % (kind, d))
     d0 = rs.ndigest(o)
     src0 = np.array(tc["src"], dtype=float) if is_align else None
+    tgt0 = np.array(tc["tgt"], dtype=float) if is_align else None
+    classes = (tc.get("src_shape", {}).get("kind", "PointCloud"), tc.get("tgt_shape", {}).get("kind", "PointCloud"))
+    if is_align:
+        sub = lambda a, b: issubclass(getattr(menpo.shape, a), getattr(menpo.shape, b))
+        rel = "same class" if classes[0] == classes[1] else "target subclass of source" if sub(classes[1], classes[0]) else \
+            "source subclass of target" if sub(classes[0], classes[1]) else "unrelated classes"
+        ctx.event("alignment source/target: %s" % rel)
     if (kind, d) in NOT_VECTORIZABLE:
         # documented: n_parameters / as_vector raise NotImplementedError in this dimension
         for what, f in (("n_parameters", lambda: o.n_parameters), ("as_vector", lambda: o.as_vector())):
@@ -493,8 +827,10 @@ def c_transform(case, ctx):
     if mirrored:
         ctx.event("mirrored fit (round trip of state not claimed)")
     else:
-        expect_state(ctx, "roundtrip.state:" + kind, rs.nstate_diff(objs.build_homog(tc), o2, rtol=tol, atol=tol, skip=("._target",) if is_align else (), loose_dtype=("._h_matrix",)))
+        expect_state(ctx, "roundtrip.state:" + kind, rs.nstate_diff(build_homog(tc), o2, rtol=tol, atol=tol, skip=("._target",) if is_align else (), loose_dtype=("._h_matrix",)))
     check_receiver_unchanged(o, ctx, d0, "own_vector")
+    if is_align:
+        check_alignment_receiver(o, ctx, kind, src0, tgt0, classes, "own_vector")
     # clause 3
     w = gen.build_unit_quaternion(case["w"]) if is_rot else np.array(case["w"], dtype=float)
     w_keep = w.copy()
@@ -508,6 +844,8 @@ def c_transform(case, ctx):
     ctx.expect(same, "from_vector_then_as_vector:" + kind, lambda: describe(v3, w_keep))
     ctx.expect(np.array_equal(w, w_keep), "from_vector.mutated_argument:" + kind, "")
     check_receiver_unchanged(o, ctx, d0, "new_vector")
+    if is_align:
+        check_alignment_receiver(o, ctx, kind, src0, tgt0, classes, "new_vector")
     # clause 6: alignments keep target == aligned source, source untouched
     for tag, r in (("new_vector", o3), ("own_vector", o2)):
         if not is_align:
@@ -524,7 +862,7 @@ def c_transform(case, ctx):
         try:
             if how == "compose_inplace":
                 oc = o.copy()
-                other = objs.build_homog(tc)
+                other = build_homog(tc)
                 if not isinstance(other, oc.composes_inplace_with):
                     other = other.as_non_alignment() if hasattr(other, "as_non_alignment") else other
                 if not isinstance(other, oc.composes_inplace_with):
@@ -599,11 +937,11 @@ def c_nonsquare(case, ctx):
 
 CLAUSES = [
     Clause("shape", c_shape, s_shape, quick=2200, thorough=60000, nt_floor=0.4,
-           rule="8 shape classes x landmarks x vector; non-trivial: structured or landmarked shape and a new vector"),
+           rule="8 shape classes x landmarks x float / integer points x float / integer vector, from_vector and the in-place route; non-trivial: structured or landmarked shape and a new vector"),
     Clause("image", c_image, s_image, quick=2000, thorough=50000, nt_floor=0.4,
-           rule="Image / MaskedImage / BooleanImage, 2-D and 3-D, masks; non-trivial: landmarks, partial mask or >1 channel, and a new vector"),
+           rule="Image / MaskedImage / BooleanImage, 2-D to 4-D, 7 dtypes, 5 mask kinds, options n_channels / copy=False, in-place route; non-trivial: landmarks, partial mask or >1 channel, and a new vector"),
     Clause("transform", c_transform, s_transform, quick=2500, thorough=60000, nt_floor=0.4,
-           rule="12 homogeneous-family classes x {2-D, 3-D}; non-trivial: vectorizable in that dimension and a new vector"),
+           rule="12 homogeneous-family classes x {2-D, 3-D}, alignments between shapes of mixed classes; non-trivial: vectorizable in that dimension and a new vector"),
     Clause("nonsquare", c_nonsquare, s_nonsquare, quick=300, thorough=6000, nt_floor=0.5,
            rule="plain Homogeneous holding a non-square matrix (3-D->2-D, 2-D->3-D, ...): vector length = n_parameters, round trips"),
 ]
